@@ -303,6 +303,7 @@ type World struct {
 	Viol     []Violation
 	Log      []string
 	KeepLog  bool
+	PreCrash *Dump // database as it stood when the server was killed
 
 	metrics *metrics.Metrics
 	api     api.API
@@ -850,6 +851,7 @@ func (w *World) drain(sys *system.System, a *ctlAIO) {
 func (w *World) Crash() {
 	w.Step++
 	w.logf("crash")
+	w.PreCrash = w.Dump()
 	for _, r := range w.Reqs {
 		if !r.Done && !r.Lost {
 			r.Lost = true
